@@ -117,6 +117,14 @@ def _run(ctx):
     for c in ('h_base', 'g_bases', 'bit_length', 'extension_degree', 'aggregation', 'commitments', 'promise', 'promise-none'):
         rep.check(bool(cls.get(c)), 'R-C05-1', 'R-C05-1/statement.%s/transcript' % c, 'statement datum `%s` is absorbed into the transcript before a challenge' % c,
                   'statement datum `%s` is not absorbed (whole, on every path)' % c, ctx.where(vb))
+    # the statement carries two views of its points, both public fields: the decompressed one is bound by the gate (below), the compressed
+    # one only by the transcript -- which must therefore absorb the stored compressed field itself, not a recompression of the other view
+    for cf, cname in (('h_base_compressed', 'h_base'), ('g_base_compressed_vec', 'g_bases'), ('commitments_compressed', 'commitments')):
+        evs_c = cls.get(cname, [])
+        okc = any(cf in ctx.fields_of(e.data()) for e in evs_c)
+        rep.check(okc, 'R-C05-1', 'R-C05-1/statement.%s/transcript-field' % cf, 'the stored field `%s` is what the transcript absorbs as `%s`' % (cf, cname),
+                  'the transcript absorbs %s as `%s`: the stored field `%s` is bound by nothing, altering it alone goes unnoticed' % (
+                      [short(e.data(), 80) for e in evs_c][:2], cname, cf), ctx.where(vb))
     for f, need_elem, ai in (('commitments', True, [3]), ('g_base_vec', False, [3]), ('h_base', False, [3]), ('minimum_value_promises', True, [2]), ('precomp', False, [0])):
         present, whole, bad = in_gate(f, ai, need_elem)
         rep.check(present and whole, 'R-C05-1', 'R-C05-1/statement.%s/gate' % f, 'statement component %s enters the gate MSM (whole)' % f,
@@ -248,6 +256,7 @@ def run(ctx):
     from .common import shared
     shared(ctx, C04.run, 'R-C04', 'R-C05-6')
     shared(ctx, lambda c: C17.stored_fields(c, only={'RangeStatement::<P>::init': ['generators', 'commitments', 'minimum_value_promises']}), 'R-C17-3', 'R-C05-7')
+    shared(ctx, lambda c: C17.copies_are_complete(c, only=('RangeStatement', 'RangeParameters', 'PedersenGens', 'BulletproofGens', 'RangeProof')), 'R-C17-3', 'R-C05-7')
 
 
 def thorough(rep):
